@@ -131,6 +131,10 @@ def main():
             chk.violation("life:%s:%s" % (why, name.split("-")[0]), "LifeTrace.tla rejects the trace at event %d: %s" % (acc + 1, why),
                           "# %s\n# %s\n%s\n" % (name, why, scn))
     chk.notes["scenarios_in_which_a_fault_fired"] = fired
+    # level B (Lifecycle.tla): every fault set of size <= 2 x clean-up flag on flat3 / nested / nested2, model-checked with seven
+    # named faults; its behaviours predict the exact observable event sequence of the real run (difference = DRIFT)
+    import life_model
+    life_model.run(chk, chk.tier == "quick")
     chk.coverage["exhaustive"] = chk.tier == "thorough"
     chk.coverage["rule"] = ("shapes flat / fan-out / nested / doubly nested / map_ with keys added and removed / switch_ with branch changes; fault sets: none, every single (node x phase in start/eval/stop x "
                             "occurrence 1-2), pairs whose second fault is a stop fault (quick: 40 sampled per shape, thorough: all); "
